@@ -346,7 +346,9 @@ def c01_3(ctx):
         ctx.check(ok, f'part:super:{c.name}', init.site(sup[0]), 'size, alignment and byte order are passed to the base class unchanged', unparse(sup[0]))
     ci = ctx.repo.func(PARTS + '.CompositeByteCodePart.__init__')
     ts = [n_ for n_ in ast.walk(ci.node) if isinstance(n_, ast.Assign) and unparse(n_.targets[0]) == 'total_size']
-    ok = len(ts) == 1 and unparse(ts[0].value) in ('reduce(lambda a, b: a + b.value_size, bytecode_parts, 0)', 'sum((p.value_size for p in bytecode_parts))', 'sum([p.value_size for p in bytecode_parts])')
+    from engine.helpers import sum_view
+    sv = [sum_view(t.value) for t in ts]
+    ok = len(ts) == 1 and sv[0] == (ci.call_params[0].arg, '_0.value_size')
     ctx.check(ok, 'part:composite-size', ci.site(), 'a composite code is as wide as the sum of its parts', '; '.join(unparse(t) for t in ts))
 
 
